@@ -487,6 +487,17 @@ def translate_registry(repo):
     path = os.path.join(repo, "scheduler/threading/scheduler.py")
     CURFILE[0] = path
     tree = ast.parse(open(path).read())
+    # constructors, __schedule and create_job_instance: recognised by template (their meaning: Model/Sched.v's
+    # sched_init / schedule and Model/Aio.v's a_init / a_schedule)
+    R.check_body(tree, "Scheduler", "__init__", R.THR_INIT, "threading Scheduler.__init__")
+    R.check_body(tree, "Scheduler", "__schedule", R.THR_SCHEDULE, "threading Scheduler.__schedule")
+    bpath = os.path.join(repo, "scheduler/base/scheduler.py")
+    CURFILE[0] = bpath
+    R.check_body(ast.parse(open(bpath).read()), "BaseScheduler", "__init__", R.BASE_INIT, "BaseScheduler.__init__")
+    upath = os.path.join(repo, "scheduler/base/scheduler_util.py")
+    CURFILE[0] = upath
+    R.check_body(ast.parse(open(upath).read()), None, "create_job_instance", R.CREATE, "create_job_instance")
+    CURFILE[0] = path
     tags = [("tags", "option (list Z)"), ("any_tag", "bool")]
     out = [R.method(tree, "delete_job", "reg_delete_job", [("job", "pytagjob")], "unit"),
            R.method(tree, "delete_jobs", "reg_delete_jobs", tags, "int"),
@@ -496,6 +507,7 @@ def translate_registry(repo):
     apath = os.path.join(repo, "scheduler/asyncio/scheduler.py")
     CURFILE[0] = apath
     atree = ast.parse(open(apath).read())
+    R.check_body(atree, "Scheduler", "__init__", R.AIO_INIT, "asyncio Scheduler.__init__")
     out += [R.aio_method(atree, "delete_job", "aio_delete_job", [("job", "pytagjob")], "unit", strip_unit=True),
             R.aio_method(atree, "delete_jobs", "aio_delete_jobs", tags, "int"),
             R.aio_method(atree, "get_jobs", "aio_get_jobs", tags, "set"),
@@ -509,6 +521,9 @@ def translate_once(repo):
     dpath = os.path.join(repo, "scheduler/base/definition.py")
     CURFILE[0] = dpath
     out = [N.type_mapping(ast.parse(open(dpath).read()))]
+    bpath = os.path.join(repo, "scheduler/base/scheduler.py")
+    CURFILE[0] = bpath
+    N.check_deprecated(ast.parse(open(bpath).read()))
     jpath = os.path.join(repo, "scheduler/base/job.py")
     CURFILE[0] = jpath
     defaults = N.init_defaults(ast.parse(open(jpath).read()))
